@@ -416,11 +416,11 @@ Lemma greedy_adjacent_fails :
   let fmt := [37;89;37;109;37;100;37;72;37;105;37;115]%N in
   let m := {| yr := 2032; mo := 2; dy := 28; hh := 23; mi := 58; ss := 49; us := 0 |} in
   exists s, render fmt m = Some s /\ str_to_date s fmt = SNull.
-Proof. eexists. split; vm_compute; reflexivity. Qed.
+Proof. eexists. split; [vm_compute; reflexivity|]. vm_compute. reflexivity. Qed.
 
 (* the AM/PM flag is parsed and ignored: '%Y-%m-%d %r' of 15:04:05 reads back as 03:04:05 *)
 Lemma ampm_ignored :
   let fmt := [37;89;45;37;109;45;37;100;32;37;114]%N in
   let m := {| yr := 2024; mo := 1; dy := 2; hh := 15; mi := 4; ss := 5; us := 0 |} in
   exists s, render fmt m = Some s /\ str_to_date s fmt = SVal (2024, 1, 2) (((3 * 60 + 4) * 60 + 5) * 1000000).
-Proof. eexists. split; vm_compute; reflexivity. Qed.
+Proof. eexists. split; [vm_compute; reflexivity|]. vm_compute. reflexivity. Qed.
